@@ -49,8 +49,10 @@ def budget(tier: str) -> float:
     return 280.0 if tier == "quick" else 1800.0
 
 
-def covered(t: pydsdl.CompositeType, tier: str) -> typing.Optional[str]:
+def covered(t: pydsdl.CompositeType, tier: str, kind: str = "ser") -> typing.Optional[str]:
     """None, or the reason why the Python run of this type is outside the tier"""
+    if t.short_name.startswith("S_") and kind != "ser":
+        return "serialization-only corpus type (255-element arrays): only the serializer queries are within the budget"
     if tier == "quick" and t.short_name in ("C_arrd",):
         return "array of delimited composites with capacity 2: ~1200 paths at the largest length (thorough tier)"
     return None
@@ -61,7 +63,7 @@ def work(a: tuple) -> list:
     from pysym import pycodec
     kind, ti, tier = a[0], a[1], a[2]
     t = TYPES[ti]
-    why = covered(t, tier)
+    why = covered(t, tier, kind)
     if why:
         lg = pycodec.QueryLog(); lg.notes.append(f"NOT COVERED [py]: {why}")
         return [(ti, "py", "not covered", lg, None, 0.0)]
@@ -71,6 +73,12 @@ def work(a: tuple) -> list:
         if kind == "ser":
             lg = pycodec.ser_queries(u, t, budget(tier))
             what = "serialize"
+        elif kind == "builtin":
+            lg = pycodec.builtin_roundtrip_queries(u, t, budget(tier))
+            what = "to_builtin -> update_from_builtin round trip"
+        elif kind == "arrayval":
+            lg = pycodec.array_validation_queries(u, t)
+            what = "array length validation"
         elif kind == "des":
             lg = pycodec.des_queries(u, t, a[3], budget(tier))
             what = f"deserialize L={a[3]}"
@@ -102,8 +110,14 @@ def replayer(t: pydsdl.CompositeType):
     def f(_tu, c: dict, _on: str):
         from pysym import pycodec
         gen = _STATE["gen"]
-        return pycodec.replay_roundtrip(gen, t, c) if c["fn"] == "rt" else pycodec.replay(gen, t, c)
+        return _replay_any(gen, t, c)
     return f
+
+
+def _replay_any(gen: pathlib.Path, t: pydsdl.CompositeType, c: dict):
+    from pysym import pycodec
+    fn = {"rt": pycodec.replay_roundtrip, "builtin": pycodec.replay_builtin, "arrayval": pycodec.replay_arrayval}.get(c["fn"], pycodec.replay)
+    return fn(gen, t, c)
 
 
 def write_replay(rd: pathlib.Path, tier: str, t: pydsdl.CompositeType, c: dict) -> None:
@@ -128,7 +142,7 @@ def replay_cli(argv: typing.List[str]) -> int:
         t = [x for x in flat if str(x.full_name) == rec["type"]][0]
         gen = generate(d, ns)
         c = rec["cex"]
-        ok, how = pycodec.replay_roundtrip(gen, t, c) if c["fn"] == "rt" else pycodec.replay(gen, t, c)
+        ok, how = _replay_any(gen, t, c)
         print(("REPRODUCED: " if ok else "not reproduced: ") + how)
         return 11 if ok else 0
 
@@ -136,3 +150,70 @@ def replay_cli(argv: typing.List[str]) -> int:
 if __name__ == "__main__":
     if len(sys.argv) > 1 and sys.argv[1] == "--replay":
         sys.exit(replay_cli(sys.argv[2:]))
+
+
+# ---------------------------------------------------------------------------------------------- ground metadata of the generated Python classes
+_META = r'''
+import sys, json, fractions, math
+sys.path.insert(0, sys.argv[1])
+import pydsdl, nunavut_support as ns
+types = pydsdl.read_namespace(sys.argv[2], [], allow_unregulated_fixed_port_id=True)
+P = {16: (10, -14), 32: (23, -126), 64: (52, -1022)}
+def ulp(q, bits):
+    p, emin = P[bits]
+    if q == 0: return fractions.Fraction(2) ** (emin - p)
+    a = abs(q); e = a.numerator.bit_length() - a.denominator.bit_length()
+    if fractions.Fraction(2) ** e > a: e -= 1
+    return fractions.Fraction(2) ** (max(e, emin) - p)
+out = []
+def check(t, cls, idt, idcls):
+    bad = []; n = 0
+    def cmp(what, got, exp):
+        nonlocal n
+        n += 1
+        if got != exp: bad.append([what, repr(got)[:80], repr(exp)[:80]])
+    cmp("_EXTENT_BYTES_", getattr(cls, "_EXTENT_BYTES_", "MISSING"), t.extent // 8)
+    cmp("_FIXED_PORT_ID_", getattr(idcls, "_FIXED_PORT_ID_", None), idt.fixed_port_id if idt.has_fixed_port_id else None)
+    m = ns.get_model(cls)
+    cmp("_MODEL_ == source model", m == t or getattr(m, "inner_type", m) == getattr(t, "inner_type", t), True)
+    cmp("str(_MODEL_)", str(m), str(t))
+    cmp("_MODEL_ fields", [(str(f.data_type), f.name) for f in m.fields], [(str(f.data_type), f.name) for f in t.fields])
+    cmp("_MODEL_ extent/bit lengths", (m.extent, min(m.bit_length_set), max(m.bit_length_set)), (t.extent, min(t.bit_length_set), max(t.bit_length_set)))
+    cmp("get_class(get_model(cls)) is cls", ns.get_class(m) is cls, True)
+    for c in t.constants:
+        n += 1
+        if not hasattr(cls, c.name):
+            bad.append(["constant " + c.name, "MISSING", str(c.value.native_value)]); continue
+        v = getattr(cls, c.name); q = c.value.native_value
+        if isinstance(c.data_type, pydsdl.FloatType):
+            q = fractions.Fraction(q)
+            ok = isinstance(v, float) and math.isfinite(v) and abs(fractions.Fraction(v) - q) <= ulp(q, c.data_type.bit_length)
+            if not ok: bad.append(["constant " + c.name, repr(v), f"{float(q)!r} within one ulp of float{c.data_type.bit_length}"])
+        else:
+            want = ord(q) if isinstance(q, str) else q
+            if isinstance(q, bool):
+                if v is not q: bad.append(["constant " + c.name, repr(v), repr(q)])
+            elif not (type(v) is int and v == int(want)):
+                bad.append(["constant " + c.name, repr(v), repr(int(want))])
+    out.append(dict(type=str(t), evaluations=n, bad=bad))
+for t in types:
+    try:
+        if isinstance(t, pydsdl.ServiceType):
+            c = ns.get_class(t)
+            check(t.request_type, c.Request, t, c); check(t.response_type, c.Response, t, c)
+        else:
+            c = ns.get_class(t); check(t, c, t, c)
+    except Exception as e:
+        out.append(dict(type=str(t), evaluations=1, bad=[["probe", type(e).__name__ + ": " + str(e)[:120], "importable class with metadata"]]))
+print(json.dumps(out))
+'''
+
+
+def python_metadata(gen: pathlib.Path, ns: pathlib.Path) -> typing.List[dict]:
+    """GROUND evaluation (no solver): class attributes of the generated Python classes against the pydsdl model, in a subprocess with the real numpy"""
+    import subprocess
+    env = {k: v for k, v in os.environ.items() if k != "PYTHONPATH"}
+    p = subprocess.run([common.PY, "-c", _META, str(gen), str(ns)], stdout=subprocess.PIPE, stderr=subprocess.PIPE, text=True, env=env)
+    if p.returncode != 0 or not p.stdout.strip():
+        raise RuntimeError("metadata probe failed: " + p.stderr[-600:])
+    return json.loads(p.stdout.strip().splitlines()[-1])
